@@ -357,3 +357,9 @@ pub(crate) fn backup<S: IndexedIds>(
 
     Ok(snap)
 }
+
+#[cfg(rustic_core_verif)]
+#[allow(missing_docs, unused_imports, dead_code, clippy::all, clippy::pedantic, clippy::nursery)]
+pub mod verif_hooks {
+    use super::*;
+}
